@@ -5,6 +5,8 @@ import (
 	"encoding/binary"
 	"encoding/json"
 	"strings"
+
+	"github.com/WuKongIM/WuKongIM/pkg/slot/fsm"
 )
 
 // ---------------------------------------------------------------------------
@@ -143,6 +145,17 @@ func (w *c13World) effHS(e logEntry) uint16 {
 	return e.hs
 }
 
+// touches: the entry acts on hash slot hs (multi-hash-slot batch commands name
+// their hash slots per item; the real decoder lists them).
+func (w *c13World) touches(e logEntry, hs uint16) bool {
+	eff := w.effHS(e)
+	if eff == hs {
+		return true
+	}
+	slots, err := fsm.DecodeCommandHashSlots(e.data, eff)
+	return err == nil && containsU16(slots, hs)
+}
+
 func (w *c13World) trackedIndex(hs uint16) int {
 	for i, x := range w.tracked {
 		if x == hs {
@@ -203,7 +216,7 @@ func (w *c13World) rootCause(batch []logEntry, j int, got []byte, hsIdx int, whe
 			continue
 		}
 		hs := w.effHS(batch[i])
-		if j > i && w.effHS(batch[j]) == hs {
+		if j > i && w.touches(batch[j], hs) {
 			refFenced := !batch[j].rejected && string(batch[j].res) == "hash_slot_fenced"
 			gotFenced := got != nil && string(got) == "hash_slot_fenced"
 			if refFenced != gotFenced {
@@ -247,13 +260,17 @@ func (w *c13World) rootCause(batch []logEntry, j int, got []byte, hsIdx int, whe
 			}
 		}
 	}
-	// 4. retention GC after a task was finished earlier in the same batch: the GC plans
-	// and scans committed task rows, so it neither counts nor removes that task
+	// 4. retention GC after the task rows changed earlier in the same batch (a task was
+	// finished, or an earlier GC removed tasks): the GC plans its count and scans from
+	// committed task rows, so it neither sees the finished task nor the removal
 	if j > 0 && infos[j].ok && infos[j].typ == wireMigGC && !batch[j].rejected &&
 		bytes.HasPrefix(batch[j].res, []byte("WKMG")) && bytes.HasPrefix(got, []byte("WKMG")) {
 		for i := 0; i < j; i++ {
-			if infos[i].ok && infos[i].finishesTask() && accepted(i) && w.effHS(batch[i]) == w.effHS(batch[j]) {
-				return "migration-gc-after-task-finished-in-same-batch"
+			if !infos[i].ok || batch[i].rejected || w.effHS(batch[i]) != w.effHS(batch[j]) {
+				continue
+			}
+			if (infos[i].finishesTask() && accepted(i)) || (infos[i].typ == wireMigGC && bytes.HasPrefix(batch[i].res, []byte("WKMG")) && !bytes.Equal(batch[i].res, []byte("WKMG\x01\x00"))) {
+				return "migration-gc-after-task-change-in-same-batch"
 			}
 		}
 	}
